@@ -156,6 +156,7 @@ func (r *runner) clear() {
 	r.emit("HClear", "Clear()")
 	r.tags["clear"] = true
 	r.lastLen = 0
+	r.obs() // C13: an empty cache of unchanged capacity
 }
 func (r *runner) resize(n int) {
 	if !hooked {
